@@ -91,7 +91,11 @@ struct Ctx {
         mono1 = mono(MonoV{}); poly0 = poly(PolyV{}); poly1 = poly(PolyV{{mono1,mpq_class(1)}});
         id_t z = val(poly0, mono1); (void)z;            // value id 0 == constant 0 (value-initialised sym)
         id_t rz = rconst(mpq_class(0)); (void)rz;       // raw id 0  == constant 0
+        vconst(mpq_class(1)); rconst(mpq_class(1));     // 0 and 1 keep fixed ids: the library keeps them in function-local statics (`static const coef_type one, zero`) across cases
     }
+    // forget every term of the previous case (handles of 0 and 1 stay valid, see the constructor); counters and the path epoch carry over
+    size_t terms_total_raw=0, terms_total_vals=0, terms_total_polys=0, terms_total_atoms=0;
+    void reset_store();
     id_t mono(const MonoV &m) { auto it=mono_hc.find(m); if (it!=mono_hc.end()) return it->second; monos.push_back(m); return mono_hc[m]=monos.size()-1; }
     id_t poly(const PolyV &p) {
         if (p.size() > max_poly_terms) throw blowup("polynomial with " + std::to_string(p.size()) + " terms");
@@ -222,7 +226,7 @@ struct Ctx {
             case R_SQRT: v=std::sqrt(rev(x.a)); break; case R_ABS: v=std::fabs(rev(x.a)); break; default: v=var_value(x.a); }
         return rev_memo[r]=v; }
     // ------------------------------------------------------------- path state
-    std::vector<bool> prefix; size_t pos=0; std::vector<Cond> pc; size_t nforks_total=0, max_depth=200;
+    std::vector<bool> prefix; size_t pos=0, pc_from=0; bool prove_all_top=false; std::set<size_t> refuted_idx; std::vector<Cond> pc; size_t nforks_total=0, max_depth=200;
     struct Work { std::vector<bool> prefix; }; std::vector<Work> work;
     size_t undecided_budget=2;   // flipped prefixes whose feasibility the solver cannot decide in time are explored only this many times per case
     bool infeasible_now=false;   // set when a structural check found the current path condition unsatisfiable
@@ -237,6 +241,10 @@ struct Ctx {
     void reset_path() { lower_bounds.clear(); infeasible_now=false; pos=0; pc.clear(); nz.clear(); nz_set.clear(); assumed.clear(); assumed_atoms.clear(); }
 };
 inline Ctx &ctx() { static Ctx c; return c; }
+inline void Ctx::reset_store() { size_t ep=havoc_epoch, a=nf_checks, b=nf_mismatch, d=nf_skipped, nf=nforks_total, np=npoison; bool cm=concrete_mode; std::vector<Event> ev=events;
+    size_t t1=terms_total_raw+rn.size(), t2=terms_total_vals+vals.size(), t3=terms_total_polys+polys.size(), t4=terms_total_atoms+atoms.size();
+    this->~Ctx(); new (this) Ctx();
+    havoc_epoch=ep; nf_checks=a; nf_mismatch=b; nf_skipped=d; nforks_total=nf; npoison=np; concrete_mode=cm; events=ev; terms_total_raw=t1; terms_total_vals=t2; terms_total_polys=t3; terms_total_atoms=t4; }
 
 struct sym;
 struct symbool { int cmp; id_t a, b; bool neg; operator bool() const; symbool operator!() const { symbool r=*this; r.neg=!r.neg; return r; } };
@@ -399,7 +407,7 @@ inline bool eval_f_tol(const F &f, double tol) { switch (f.k) {
 
 // ------------------------------------------------------------------ solver process (z3 -in), one per harness process
 struct Solver {
-    pid_t pid=-1; int wfd=-1, rfd=-1; std::string buf; double total_s=0; size_t nq=0; std::string cmd="z3"; int timeout_ms=20000; int feas_timeout_ms=600;
+    pid_t pid=-1; int wfd=-1, rfd=-1; std::string buf; double total_s=0; size_t nq=0; std::string cmd="z3"; int timeout_ms=20000; int feas_timeout_ms=600; long rlimit_per_ms=1000; int wall_factor=5;
     std::string dump_dir; size_t dump_max=0, dumped=0;
     void start() { int in[2], out[2]; if (pipe(in) || pipe(out)) throw std::runtime_error("pipe"); pid=fork();
         if (pid==0) { dup2(in[0],0); dup2(out[1],1); dup2(out[1],2); close(in[1]); close(out[0]); execlp(cmd.c_str(), cmd.c_str(), "-in", "-smt2", "-memory:3500", (char*)0); _exit(127); }
@@ -412,8 +420,10 @@ struct Solver {
         if (!dump_dir.empty() && dumped<dump_max) { std::ofstream d(dump_dir+"/q"+std::to_string(getpid())+"_"+std::to_string(dumped++)+".smt2"); d<<script; }
         auto t0=std::chrono::steady_clock::now(); nq++;
         // one fresh solver context per query: after (push) z3 switches to its incremental core, which is far weaker on non-linear real arithmetic
-        send("(set-option :pp.decimal false)\n(set-option :timeout "+std::to_string(timeout_ms)+")\n"+script+"\n(reset)\n(echo \"<<done>>\")\n");
-        std::string out; double limit = timeout_ms/1000.0*2.5 + 5;
+        // the budget is z3's deterministic resource counter (measured here: 150 k to 2.4 M units per second depending on the query; nominal 1000 per 'millisecond' of budget), so that verdicts do not depend on machine load;
+        // the wall-clock timeout is only a backstop at wall_factor (5) times the nominal budget
+        send("(set-option :pp.decimal false)\n(set-option :timeout "+std::to_string((long)timeout_ms*wall_factor)+")\n(set-option :rlimit "+std::to_string((long)timeout_ms*rlimit_per_ms)+")\n"+script+"\n(reset)\n(echo \"<<done>>\")\n");
+        std::string out; double limit = timeout_ms/1000.0*wall_factor*1.25 + 3;
         for (;;) { size_t p=buf.find("<<done>>"); if (p!=std::string::npos) { out=buf.substr(0,p); size_t q=buf.find('\n',p); buf = q==std::string::npos ? "" : buf.substr(q+1); break; }
             double el=std::chrono::duration<double>(std::chrono::steady_clock::now()-t0).count(); if (el>limit) { timed_out=true; stop(); break; }
             struct pollfd pf{rfd,POLLIN,0}; int pr=poll(&pf,1,1000); if (pr>0) { char tmp[65536]; ssize_t r=read(rfd,tmp,sizeof tmp); if (r<=0) { timed_out=true; stop(); break; } buf.append(tmp,r); } }
@@ -446,7 +456,7 @@ inline std::string jesc(const std::string &s) { std::string r; for (char ch : s)
 struct Violation { std::string casename, obligation, detail; std::map<std::string,std::string> model; std::vector<bool> prefix; bool have_model; };
 struct Report {
     size_t obligations=0, discharged=0, queries=0, q_unsat=0, q_sat=0, q_unknown=0, paths=0, paths_pruned=0, paths_unexplored=0, paths_stopped=0, reach_sat=0, reach_unsat=0, reach_unknown=0, trivial=0;
-    size_t solver_errors=0; std::string last_error; size_t witness_unknown=0, paths_undecided_skipped=0; std::set<std::string> unexplored_cases;
+    size_t solver_errors=0; std::string last_error; size_t witness_refuted=0, witness_unknown=0, paths_undecided_skipped=0; std::set<std::string> unexplored_cases;
     std::vector<Violation> violations; std::vector<std::string> inconclusive; std::vector<std::string> samples; std::set<std::string> assumptions; std::map<std::string,size_t> stops;
     size_t max_query_bytes=0;
 };
@@ -458,7 +468,7 @@ inline QueryResult run_query(const std::vector<std::string> &asserts_in, Emit &e
     Ctx &c=ctx(); std::ostringstream o; std::vector<std::string> asserts=asserts_in;
     for (id_t a : c.assumed_atoms) need_atom(a,e); for (auto &a : c.assumed) asserts.push_back(a);
     // path condition and non-zero divisors
-    for (auto &p : c.pc) { std::string r=smt_rel(p.cmp,p.a,p.b,e); asserts.push_back(p.truth ? r : "(not "+r+")"); asserts.push_back(smt_den_nz(p.a,e)); asserts.push_back(smt_den_nz(p.b,e));
+    for (size_t pi=c.pc_from; pi<c.pc.size(); ++pi) { auto &p=c.pc[pi]; std::string r=smt_rel(p.cmp,p.a,p.b,e); asserts.push_back(p.truth ? r : "(not "+r+")"); asserts.push_back(smt_den_nz(p.a,e)); asserts.push_back(smt_den_nz(p.b,e));
         // implied lemmas (sound strengthening): values non-negative by construction; a sum of squares that is <= 0 has all components zero
         id_t zero=c.vconst(0); mpq_class k;
         for (id_t side : {p.a,p.b}) if (c.nn_vals.count(side) && !c.vis_const(side,k)) asserts.push_back(smt_rel(LE,zero,side,e));
@@ -483,10 +493,12 @@ inline QueryResult run_query(const std::vector<std::string> &asserts_in, Emit &e
         for (auto &b : bool_names) { size_t p=out2.find("("+b+" "); if (p!=std::string::npos) { ModelVal m; m.rational=true; m.exact = out2.compare(p+b.size()+2,4,"true")==0 ? "true" : "false"; m.d = m.exact=="true"; qr.model[b]=m; } } }
     return qr; }
 
+inline bool witness_refutes(const F &f, Violation &v);
 // post a proof obligation under the current path condition
 inline bool s_prove(const std::string &name, const F &f) {
     Ctx &c=ctx(); Report &r=report(); r.obligations++; if (f.k==F::REL && f.cmp==EQ && f.a==f.b) r.trivial++;
     else if (getenv("SYMX_DEBUG") && f.k==F::REL) { id_t d=c.vadd(f.a,f.b,-1); Emit e; std::cerr<<"nontrivial "<<name<<" prefix="; for (size_t i=0;i<c.pos&&i<c.prefix.size();++i) std::cerr<<(c.prefix[i]?'1':'0'); std::cerr<<" lhs terms="<<c.polys[c.vals[f.a].n].size()<<" den="<<smt_mono(c.vals[f.a].d)<<" rhs terms="<<c.polys[c.vals[f.b].n].size()<<" den="<<smt_mono(c.vals[f.b].d)<<" LHS="<<smt_poly(c.vals[f.a].n).substr(0,200)<<" diff terms="<<c.polys[c.vals[d].n].size()<<" diff="<<smt_poly(c.vals[d].n).substr(0,300)<<"\n"; }
+    if (!(f.k==F::REL && f.cmp==EQ && f.a==f.b)) { Violation wv; if (witness_refutes(f,wv)) { wv.obligation=name; r.witness_refuted++; r.violations.push_back(wv); return false; } }
     Emit e; std::vector<std::string> as; std::set<id_t> vs; f_dens(f,vs); for (id_t v : vs) as.push_back(smt_den_nz(v,e));
     as.push_back("(not "+smt_f(f,e)+")");
     if (r.samples.size()<6) { Emit e2; std::string s=smt_f(f,e2); if (s.size()>600) s=s.substr(0,600)+"..."; r.samples.push_back(name+": "+s); }
@@ -498,13 +510,17 @@ inline bool s_prove(const std::string &name, const F &f) {
     r.violations.push_back(v); return false; }
 // many equalities at once: one query, bisected on unknown; on sat the failing ones are identified by evaluation under the model
 inline void s_prove_all(const std::string &name, const std::vector<F> &fs, size_t lo=0, size_t hi=(size_t)-1) {
-    if (hi==(size_t)-1) { hi=fs.size(); report().obligations+=fs.size(); size_t pick=0; for (size_t i=0;i<fs.size();++i) if (!(fs[i].k==F::REL && fs[i].a==fs[i].b)) { pick=i; break; }
+    if (hi==(size_t)-1) { ctx().prove_all_top=true; hi=fs.size(); report().obligations+=fs.size(); size_t pick=0; for (size_t i=0;i<fs.size();++i) if (!(fs[i].k==F::REL && fs[i].a==fs[i].b)) { pick=i; break; }
         if (!fs.empty() && report().samples.size()<6 && (!(fs[pick].k==F::REL && fs[pick].a==fs[pick].b) || report().obligations>400)) { Emit e2; std::string s=smt_f(fs[pick],e2); if (s.size()>600) s=s.substr(0,600)+"..."; report().samples.push_back(name+"["+std::to_string(pick)+"]: "+s); } }
     if (lo>=hi) return; Ctx &c=ctx(); Report &r=report();
     Emit e; std::vector<std::string> as; std::set<id_t> vs; std::string disj="(or"; bool alltriv=true;
     for (size_t i=lo;i<hi;++i) { f_dens(fs[i],vs); if (!(fs[i].k==F::REL && fs[i].cmp==EQ && fs[i].a==fs[i].b)) alltriv=false; disj+=" (not "+smt_f(fs[i],e)+")"; } disj+=")";
     for (id_t v : vs) as.push_back(smt_den_nz(v,e)); as.push_back(disj);
     if (alltriv) r.trivial+=hi-lo;
+    bool top_=c.prove_all_top; c.prove_all_top=false;
+    if (!alltriv && top_) {     // concolic pre-pass: an obligation that already fails at the path's own witness point needs no solver search
+        for (size_t i=lo;i<hi;++i) if (!(fs[i].k==F::REL && fs[i].cmp==EQ && fs[i].a==fs[i].b)) { Violation wv; if (witness_refutes(fs[i],wv)) { wv.obligation=name+"["+std::to_string(i)+"]"; r.witness_refuted++; r.violations.push_back(wv); c.refuted_idx.insert(i); } }
+        if (!c.refuted_idx.empty()) { std::vector<F> rest; std::vector<size_t> keep; for (size_t i=lo;i<hi;++i) if (!c.refuted_idx.count(i)) rest.push_back(fs[i]); c.refuted_idx.clear(); r.obligations-=rest.size(); s_prove_all(name+" (remaining)",rest); return; } }
     int full_to=solver().timeout_ms; if (hi-lo>1) solver().timeout_ms=std::min(full_to, std::max(1500, full_to/6));   // batches get a short budget, singles the full one
     QueryResult q=run_query(as,e,true); solver().timeout_ms=full_to;
     if (q.verdict=="unsat") { r.discharged+=hi-lo; return; }
@@ -517,7 +533,8 @@ inline void s_prove_eq_vec(const std::string &name, const std::vector<sym> &a, c
     if (a.size()!=b.size()) { Violation v; v.obligation=name+" (size mismatch "+std::to_string(a.size())+" vs "+std::to_string(b.size())+")"; v.have_model=false; report().obligations++; report().violations.push_back(v); return; }
     std::vector<F> fs; for (size_t i=0;i<a.size();++i) fs.push_back(eq(a[i],b[i])); s_prove_all(name,fs); }
 // assume a formula for the rest of this path (a stated precondition of the property)
-inline void s_assume(const F &f) { Ctx &c=ctx(); Emit e; std::string t=smt_f(f,e); std::set<id_t> vs; f_dens(f,vs); for (id_t v : vs) { std::string d=smt_den_nz(v,e); if (d!="true") c.assumed.push_back(d); } c.assumed.push_back(t); for (id_t a : e.done) c.assumed_atoms.insert(a);
+inline std::vector<std::pair<size_t,F>> &assumed_fs() { static std::vector<std::pair<size_t,F>> v; return v; }   // (path epoch, assumption) for exact evaluation at a witness
+inline void s_assume(const F &f) { Ctx &c=ctx(); { auto &af=assumed_fs(); if (!af.empty() && af.back().first!=c.havoc_epoch) af.clear(); af.push_back({c.havoc_epoch,f}); } Emit e; std::string t=smt_f(f,e); std::set<id_t> vs; f_dens(f,vs); for (id_t v : vs) { std::string d=smt_den_nz(v,e); if (d!="true") c.assumed.push_back(d); } c.assumed.push_back(t); for (id_t a : e.done) c.assumed_atoms.insert(a);
     { mpq_class k; if (f.k==F::REL && f.cmp==LE && c.vis_const(f.a,k)) { auto it=c.lower_bounds.find(f.b); if (it==c.lower_bounds.end() || it->second<k) c.lower_bounds[f.b]=k; } }
     if (f.k==F::NOT && f.kids[0].k==F::REL && f.kids[0].cmp==EQ) { id_t d=c.vadd(f.kids[0].a,f.kids[0].b,-1); c.nz_set.insert(d); }   // known non-zero: avoids a spurious fork
     if (!c.need_witness && !eval_f(f)) c.need_witness=true; }   // default witness violates the assumption: fetch a model at the next fork
@@ -546,8 +563,8 @@ inline void s_require(const std::string &name, bool ok, const std::string &detai
 // normaliser validation: raw operation log vs normal form at the current witness
 inline size_t &q_epoch() { static size_t e=0; return e; }
 // exact-rational evaluation (fails on irrational sqrt / division by zero)
-struct QEval { std::unordered_map<id_t,std::pair<bool,mpq_class>> rmemo, amemo; std::vector<double> wit_snapshot;
-    bool var_q(id_t v, mpq_class &o) { Ctx &c=ctx(); auto it=c.havoc_of_var.find(v); if (it!=c.havoc_of_var.end() && !(v<c.wit.size() && c.wit[v]==c.wit[v])) { const Ctx::Havoc h=c.havocs[it->second]; mpq_class a,b; if (!val_q(h.a,a) || !val_q(h.b,b) || b==0) return false; o=a/b; return true; } double d=(double)c.var_value(v); if (d!=d || std::isinf(d)) return false; o=mpq_class(d); return true; }
+struct QEval { std::unordered_map<id_t,std::pair<bool,mpq_class>> rmemo, amemo; std::vector<double> wit_snapshot; bool force_defs=false;   // force_defs: cut variables take the value of the division they stand for (the real semantics)
+    bool var_q(id_t v, mpq_class &o) { Ctx &c=ctx(); auto it=c.havoc_of_var.find(v); if (it!=c.havoc_of_var.end() && (force_defs || !(v<c.wit.size() && c.wit[v]==c.wit[v]))) { const Ctx::Havoc h=c.havocs[it->second]; mpq_class a,b; if (!val_q(h.a,a) || !val_q(h.b,b) || b==0) return false; o=a/b; return true; } double d=(double)c.var_value(v); if (d!=d || std::isinf(d)) return false; o=mpq_class(d); return true; }
     static bool qsqrt(const mpq_class &x, mpq_class &o) { if (x<0) return false; mpz_class n=x.get_num(), d=x.get_den(); if (!mpz_perfect_square_p(n.get_mpz_t()) || !mpz_perfect_square_p(d.get_mpz_t())) return false; mpz_class rn,rd; mpz_sqrt(rn.get_mpz_t(),n.get_mpz_t()); mpz_sqrt(rd.get_mpz_t(),d.get_mpz_t()); o=mpq_class(rn,rd); return true; }
     bool raw_q(id_t r, mpq_class &o) { auto it=rmemo.find(r); if (it!=rmemo.end()) { o=it->second.second; return it->second.first; } Ctx &c=ctx(); const RNode x=c.rn[r]; mpq_class a,b; bool ok=true;
         auto hr=c.havoc_raw.find(r); if (hr!=c.havoc_raw.end()) { ok=var_q(hr->second,o); rmemo[r]={ok,o}; return ok; }
@@ -568,16 +585,37 @@ inline QEval &qeval() { static QEval q; return q; }
 inline void validate_nf(sym s) { Ctx &c=ctx(); if (!s.valid()) return; QEval &q=qeval(); if (q.wit_snapshot.size()!=c.wit.size() || !std::equal(q.wit_snapshot.begin(),q.wit_snapshot.end(),c.wit.begin(),[](double a,double b){ return a==b || (a!=a && b!=b); }) || c.havoc_epoch!=q_epoch()) { q.rmemo.clear(); q.amemo.clear(); q.wit_snapshot=c.wit; q_epoch()=c.havoc_epoch; }
     mpq_class a,b; if (!q.raw_q(s.raw,a) || !q.val_q(s.nf,b)) { c.nf_skipped++; return; } c.nf_checks++; if (a!=b) { c.nf_mismatch++; if (getenv("SYMX_DEBUG")) std::cerr<<"nf mismatch raw="<<a.get_d()<<" nf="<<b.get_d()<<" pos="<<c.pos<<"\n"; } }
 
+// concolic refutation: exact rational evaluation at the current path's witness point (the solver's model of the path prefix, or the
+// hint point on the first path), with every cut variable bound to the division it stands for.  Only if the whole path condition, the
+// stated assumptions and the non-zero-divisor conditions hold EXACTLY at that point and the obligation is false there, it is reported.
+inline bool q_rel(int cmp, id_t a, id_t b, bool &ok) { QEval &q=qeval(); mpq_class x,y; if (!q.val_q(a,x) || !q.val_q(b,y)) { ok=false; return false; } return cmp==EQ ? x==y : cmp==LT ? x<y : x<=y; }
+inline bool q_f(const F &f, bool &ok) { switch (f.k) { case F::REL: return q_rel(f.cmp,f.a,f.b,ok); case F::TRUE_: return true; case F::NOT: return !q_f(f.kids[0],ok);
+    case F::AND: { bool r=true; for (auto &k : f.kids) { bool v=q_f(k,ok); if (!ok) return false; r=r&&v; } return r; } default: { bool r=false; for (auto &k : f.kids) { bool v=q_f(k,ok); if (!ok) return false; r=r||v; } return r; } } }
+inline bool witness_refutes(const F &f, Violation &v) { Ctx &c=ctx(); if (c.concrete_mode) return false; QEval &q=qeval(); q.rmemo.clear(); q.amemo.clear(); q.wit_snapshot.clear(); q.force_defs=true; bool ok=true, res=false;
+    do { bool fv=q_f(f,ok); if (!ok || fv) break;
+        bool pcok=true; for (auto &p : c.pc) { bool r=q_rel(p.cmp,p.a,p.b,ok); if (!ok || r!=p.truth) { pcok=false; break; } } if (!pcok) break;
+        for (auto &a : assumed_fs()) if (a.first==c.havoc_epoch) { bool r=q_f(a.second,ok); if (!ok || !r) { pcok=false; break; } } if (!pcok) break;
+        for (id_t d : c.nz) { mpq_class x; if (!q.val_q(d,x) || x==0) { pcok=false; break; } } if (!pcok) break;
+        res=true; } while (false);
+    q.force_defs=false; q.rmemo.clear(); q.amemo.clear(); q.wit_snapshot.clear();
+    if (!res) return false;
+    v.prefix=std::vector<bool>(c.prefix.begin(), c.prefix.begin()+std::min(c.pos,c.prefix.size())); v.have_model=true; v.detail="fails at the path's witness point (exact rational evaluation)";
+    for (size_t i=0;i<c.vars.size();++i) if (!c.havoc_of_var.count(i)) { double d=(double)c.var_value(i); if (d==d && !std::isinf(d)) v.model[c.vars[i]]=mpq_class(d).get_str(); }
+    return true; }
+
 // ------------------------------------------------------------------ exploration driver
 struct infeasible : engine_stop { infeasible() : engine_stop{"infeasible prefix"} {} };
 struct undecided : engine_stop { undecided() : engine_stop{"undecided prefix"} {} };
-inline void Ctx::acquire_witness() { need_witness=false; Emit e; int full=solver().timeout_ms; solver().timeout_ms=std::min(full,solver().feas_timeout_ms); QueryResult q=run_query({},e,true); solver().timeout_ms=full;
+inline void Ctx::acquire_witness() { need_witness=false; int full=solver().timeout_ms; solver().timeout_ms=std::min(full,solver().feas_timeout_ms);
+    // cheap local refutation first: the newest decision against the stated assumptions only (dropping conjuncts weakens the formula, so unsat carries over to the full path condition)
+    if (!pc.empty() && pc.size()>4) { Emit e0; pc_from=pc.size()-1; QueryResult q0=run_query({},e0,false,{},false); pc_from=0; if (q0.verdict=="unsat") { solver().timeout_ms=full; throw infeasible(); } }
+    Emit e; QueryResult q=run_query({},e,true); solver().timeout_ms=full;
     if (q.verdict=="unsat") throw infeasible();
     if (q.verdict=="sat") { std::vector<double> w(vars.size(), std::nan("")); for (auto &kv : q.model) if (kv.second.rational) { auto it=var_ix.find(kv.first); if (it!=var_ix.end()) w[it->second]=kv.second.d; } set_witness(w); }
     else { report().witness_unknown++; if (undecided_budget==0) throw undecided(); --undecided_budget; } }
 struct Options { size_t max_paths=64; size_t max_depth=60; bool check_reach=true; size_t max_undecided=2; double budget_s=40; };
 template<class Body> inline void explore(const std::string &casename, Body body, const Options &opt=Options()) {
-    Ctx &c=ctx(); Report &r=report(); c.max_depth=opt.max_depth; c.undecided_budget=opt.max_undecided; size_t npaths=0;
+    Ctx &c=ctx(); Report &r=report(); c.reset_store(); qeval().rmemo.clear(); qeval().amemo.clear(); qeval().wit_snapshot.clear(); assumed_fs().clear(); c.max_depth=opt.max_depth; c.undecided_budget=opt.max_undecided; size_t npaths=0;
     std::vector<Ctx::Work> todo; todo.push_back(Ctx::Work{}); std::vector<double> nowit;
     auto t_case=std::chrono::steady_clock::now();
     while (!todo.empty()) {
